@@ -49,6 +49,8 @@ def run(ctx):
             inputs.append({"id": "mut:%s@%d=%s" % (b["name"], m["off"], "".join("%02x" % v for v in m["bytes"])), "bytes": x})
         for t in rcp["truncs"]:
             inputs.append({"id": "trunc:%s@%d" % (b["name"], t), "bytes": b["bytes"][:t]})
+        for c in rcp["cuts"]:
+            inputs.append({"id": "datacut:%s-%d" % (b["name"], len(b["bytes"]) - len(c)), "bytes": c})
     nmut = len(inputs)
     rpath = ctx.path("random.ndjson")
     ctx.harness(rel, ["random", bpath, rpath, str(ctx.pick(3000, 60000))])
